@@ -593,6 +593,9 @@ func (k *checker) check(sp spec, tag string) {
 	for i := 0; i < 12; i++ {
 		switch k.r.Pick(6) {
 		case 0: // border of a segment: cumulative[i]/W, and its float neighbours
+			if len(st.cum) == 0 { // (only under a change that breaks the digest's state)
+				continue
+			}
 			q := st.cum[k.r.Pick(len(st.cum))] / st.w
 			qs = append(qs, q, math.Nextafter(q, 0), math.Nextafter(q, 2))
 		case 1:
